@@ -28,4 +28,109 @@ theorem floatValue_neg_partial (cs : List Char) (h : (cs.head? == some '-') = fa
         · rfl
         · split <;> first | rfl | simp_all
 
+theorem halfUlp_neg (x : Rat) : halfUlp (-x) = halfUlp x := by
+  unfold halfUlp; simp [Rat.neg_num, Rat.neg_den]
+
+theorem isPow2_neg (x : Rat) : isPow2 (-x) = isPow2 x := by
+  unfold isPow2; simp [Rat.neg_num]
+
+theorem absR_neg (x : Rat) : absR (-x) = absR x := by
+  unfold absR
+  by_cases h : x < 0
+  · have : ¬ (-x < 0) := by linarith
+    simp [h, this]
+  · by_cases h0 : x = 0
+    · subst h0; simp
+    · have : -x < 0 := by
+        have : 0 < x := lt_of_le_of_ne (not_lt.mp h) (Ne.symm h0)
+        linarith
+      simp [h, this]
+
+theorem mantEven_neg (x : Rat) : mantEven (-x) = mantEven x := by
+  unfold mantEven; rw [absR_neg, halfUlp_neg]
+
+/-- the rounding interval is symmetric: `q > 0` rounds to `−x > 0` iff `−q` rounds to `x` -/
+theorem inRound_neg_of_pos (x q : Rat) (hx : x < 0) (hq : 0 < q) (h : inRound (-x) q = true) :
+    inRound x (-q) = true := by
+  have a1 : absR (-x) = -x := by unfold absR; simp [not_lt.mpr (by linarith : (0 : Rat) ≤ -x)]
+  have a2 : absR x = -x := by rw [← absR_neg, a1]
+  have a3 : absR q = q := by unfold absR; simp [not_lt.mpr hq.le]
+  have a4 : absR (-q) = q := by rw [absR_neg, a3]
+  unfold inRound at h ⊢
+  simp only [a1, a2, a3, a4, halfUlp_neg, isPow2_neg, mantEven_neg, Bool.and_eq_true] at h ⊢
+  refine ⟨?_, h.2⟩
+  apply decide_eq_true
+  constructor
+  · intro _; linarith
+  · intro _; exact hx
+
+/-- the fixed-notation layout has its decimal point right after the leading digits -/
+theorem reprLayout_fixed_dot (ds : List Char) (dp : Int) (hne : ds ≠ []) (hd : ∀ c ∈ ds, c.isDigit = true)
+    (h1 : -4 < dp) (h2 : dp ≤ 16) : ((reprLayout ds dp).dropWhile Char.isDigit).head? = some '.' := by
+  have hdot : Char.isDigit '.' = false := by decide
+  unfold reprLayout
+  simp only [h1, h2, and_self, if_true]
+  by_cases hA : dp ≤ 0
+  · simp only [hA, if_true]
+    have := dropWhile_append_stop (p := Char.isDigit) ['0'] '.' (List.replicate (-dp).toNat '0' ++ ds)
+      (by intro c hc; simp at hc; rw [hc]; decide) hdot
+    simp only [List.singleton_append] at this
+    rw [this]; rfl
+  · simp only [hA, if_false]
+    by_cases hB : ds.length ≤ dp.toNat
+    · simp only [hB, if_true, List.append_assoc]
+      have hip : ∀ c ∈ ds ++ List.replicate (dp.toNat - ds.length) '0', c.isDigit = true := by
+        intro c hc
+        rcases List.mem_append.mp hc with hc | hc
+        · exact hd c hc
+        · rw [List.mem_replicate] at hc; rw [hc.2]; decide
+      have := dropWhile_append_stop (p := Char.isDigit) (ds ++ List.replicate (dp.toNat - ds.length) '0') '.' ['0'] hip hdot
+      simp only [List.append_assoc] at this
+      rw [this]; rfl
+    · simp only [hB, if_false]
+      have := dropWhile_append_stop (p := Char.isDigit) (ds.take dp.toNat) '.' (ds.drop dp.toNat)
+        (fun c hc => hd c (List.mem_of_mem_take hc)) hdot
+      rw [this]; rfl
+
+/-- **the generator's text is accepted (fixed notation, negative doubles)** -/
+theorem reprOk_pyReprChars_fixed_neg (x : Rat) (hx : x < 0) (hdy : x.den = 2 ^ Nat.log2 x.den) (m : Nat) (e : Int)
+    (h : shortestFrom x (absR x) (decPoint (absR x)) 17 1 = some (m, e))
+    (h1 : -4 < ((Nat.toDigits 10 (stripZeros 20 m e).1).length : Int) + (stripZeros 20 m e).2)
+    (h2 : ((Nat.toDigits 10 (stripZeros 20 m e).1).length : Int) + (stripZeros 20 m e).2 ≤ 16) :
+    reprOk true x (pyReprChars true x) = true := by
+  have hx0 : x ≠ 0 := ne_of_lt hx
+  have habs : absR x = -x := by unfold absR; simp [hx]
+  have hchars : pyReprChars true x =
+      '-' :: reprLayout (Nat.toDigits 10 (stripZeros 20 m e).1)
+        (((Nat.toDigits 10 (stripZeros 20 m e).1).length : Int) + (stripZeros 20 m e).2) := by
+    unfold pyReprChars
+    simp only [if_true, hx0, if_false, h, List.singleton_append]
+  have hds : ∀ c ∈ Nat.toDigits 10 (stripZeros 20 m e).1, c.isDigit = true := digits_isDigit _
+  have hval := floatValue_reprLayout_fixed _ _ Nat.toDigits_ne_nil hds h1 h2
+  have hhead := reprLayout_fixed_head _ _ Nat.toDigits_ne_nil hds h1 h2
+  have hdot := reprLayout_fixed_dot _ _ Nat.toDigits_ne_nil hds h1 h2
+  have hq : ((Nat.ofDigitChars 10 (Nat.toDigits 10 (stripZeros 20 m e).1) 0 : Nat) : Rat) *
+      pow10R (((Nat.toDigits 10 (stripZeros 20 m e).1).length : Int) + (stripZeros 20 m e).2 -
+        ((Nat.toDigits 10 (stripZeros 20 m e).1).length : Int)) =
+      ((m : Nat) : Rat) * pow10R e := by
+    rw [Nat.ofDigitChars_ten_toDigits, add_sub_cancel_left]
+    exact stripZeros_value 20 m e
+  have hin := shortestFrom_sound x (absR x) _ 17 1 m e h
+  rw [habs] at hin
+  -- the decimal is positive: it is within half an ulp of |x| and half an ulp is at most |x|·2⁻⁵³
+  have hclose := inRound_close _ _ hin
+  have hxd : (-x).den = 2 ^ Nat.log2 (-x).den := by simpa [Rat.neg_den] using hdy
+  have hule := halfUlp_le (-x) (by linarith [hx] : -x ≠ 0) hxd
+  have habs' : absR (-x) = -x := by rw [absR_neg, habs]
+  rw [habs'] at hule
+  have hh := halfUlp_nonneg (-x)
+  have hqpos : 0 < ((m : Nat) : Rat) * pow10R e := by
+    have c53 : ((2 ^ 53 : Nat) : Rat) = 9007199254740992 := by norm_num
+    rw [c53] at hule
+    nlinarith [hclose.2]
+  have hfin := inRound_neg_of_pos x _ hx hqpos hin
+  unfold reprOk
+  rw [hchars, floatValue_neg_partial _ hhead hdot, hval, hq]
+  simp only [Option.map_some, List.head?_cons, beq_self_eq_true, hx0, if_false, hfin, Bool.and_true]
+
 end CBV.C06
